@@ -5,8 +5,8 @@ Supported subset (anything else raises Unsupported, which the calling piece repo
   and a final expression; expressions with + - * / == != < <= > >= && || ! & * (deref), integer literals, paths, field access,
   method calls on the known types (len, iter, map, sum, any, all, as_ref, map_or, is_none, is_some, is_empty, div_ceil,
   saturating_sub, size of VarInt, encoded_length …), closures `|x| e`, `if c { a } else { b }`, blocks, `as T` casts,
-  `match *self { Path(..) => e, … }` and `matches!(*self, Path(..))` over the confidential enums, and calls of other translated
-  functions (methods or `Type::f` paths).
+  `match *self { Path(..) => e, … }` and `matches!(*self, Path(..))` over the confidential enums, `match n { lo..=hi => e, …, _ => e }` over
+  integers, and calls of other translated functions (methods or `Type::f` paths).
 
 The result mirrors the Rust term by term, so the hand-written model is normally *convertible* with it (proofs by reflexivity);
 `usize` arithmetic is emitted over N with truncated subtraction (the models state separately that no subtraction truncates)."""
@@ -234,6 +234,16 @@ class P:
     def pattern(self):
         if self.peek() == "_":
             self.eat(); return ("wild",)
+        if self.kind() == "num":
+            lo = self.primary()[1]
+            if self.peek() == "..":
+                self.eat()
+                incl = False
+                if self.peek() == "=":
+                    self.eat(); incl = True
+                hi = self.primary()[1]
+                return ("range", lo, hi if incl else hi - 1)
+            return ("range", lo, lo)
         path = [self.eat()]
         while self.peek() == "::":
             self.eat(); path.append(self.eat())
@@ -332,14 +342,15 @@ CTORS = {
     "Nonce::Null": ("cnonce", "NNull"), "Nonce::Explicit": ("cnonce", "NExplicit _"), "Nonce::Confidential": ("cnonce", "NConf _"),
 }
 RUST_TYPE = {"Transaction": "tx", "TxIn": "txin", "TxOut": "txout", "TxInWitness": "inwit", "TxOutWitness": "outwit", "AssetIssuance": "issuance",
-             "Value": "cvalue", "Asset": "casset", "Nonce": "cnonce", "Block": "block"}
+             "Value": "cvalue", "Asset": "casset", "Nonce": "cnonce", "Block": "block", "VarInt": "varint"}
 COQ_TYPE = {"tx": "tx", "txin": "txin", "txout": "txout", "inwit": "inwit", "outwit": "outwit", "issuance": "issuance", "cvalue": "cvalue",
-            "casset": "casset", "cnonce": "cnonce", "block": "block", "N": "N", "bool": "bool", "bytes": "bytes"}
+            "casset": "casset", "cnonce": "cnonce", "block": "block", "N": "N", "bool": "bool", "bytes": "bytes", "varint": "N"}
 
 
 class Emitter:
     def __init__(self, fns):
         self.fns = fns          # (type, method) -> (coq name, [param types], ret type, extra leading coq args)
+        self.varint_size = "vi_size"
 
     def ty_of_ret(self, s):
         s = s.strip()
@@ -362,6 +373,8 @@ class Emitter:
             raise Unsupported("unknown name %s" % x[1])
         if k == "field":
             r, t = self.e(x[1], env)
+            if t == "varint" and x[2] == "0":
+                return r, "N"
             if (t, x[2]) not in FIELDS:
                 raise Unsupported("field %s of %s" % (x[2], t))
             acc, ft = FIELDS[(t, x[2])]
@@ -396,6 +409,17 @@ class Emitter:
             return "(if %s then %s else %s)" % (c, a, b), ta
         if k == "block":
             return self.block(x, env)
+        if k == "match" and any(p[0] == "range" for p, _ in x[2]):
+            s, ts = self.e(x[1], env)
+            self.want(ts, "N")
+            if x[2][-1][0][0] != "wild" or any(p[0] != "range" for p, _ in x[2][:-1]):
+                raise Unsupported("range match must be ranges followed by a catch-all arm")
+            out, rt = self.e(x[2][-1][1], env)
+            for pat, body in reversed(x[2][:-1]):
+                b, tb = self.e(body, env)
+                self.want(tb, rt)
+                out = "(if (%d <=? %s) && (%s <=? %d) then %s else %s)" % (pat[1], s, s, pat[2], b, out)
+            return out, rt
         if k == "match":
             s, ts = self.e(x[1], env)
             arms = []
@@ -460,7 +484,8 @@ class Emitter:
         if name in ("iter", "as_ref", "clone") and not args:
             return r, t
         if name == "size" and t == "varint" and not args:
-            return "(vi_size %s)" % r, "N"
+            # which VarInt the file imports decides: the crate's own (translated: src_VarInt_size) or rust-bitcoin's (a dependency: vi_size of Base/Codec.v)
+            return "(%s %s)" % (self.varint_size, r), "N"
         if name == "map" and islist and len(args) == 1:
             f, rt = self.closure(args[0], t[1], env)
             return "(map %s %s)" % (f, r), ("list", rt)
